@@ -53,11 +53,13 @@ func asOverloadArgument(cases []Case) []Case {
 		}
 		n := len(out)
 		t := mt[1]
-		goDecls := fmt.Sprintf("func pickS%d(v %s, k string) %s { return v }\n\nfunc pickI%d(v %s, k int) %s { return v }\n", n, t, t, n, t, t)
+		// the candidates differ in the type of a callback: a lambda argument has to be compiled against each
+		// candidate's parameter type, which is what makes the compiler lower all arguments again
+		goDecls := fmt.Sprintf("func pickS%d(v %s, f func(string) string) %s { return v }\n\nfunc pickI%d(v %s, f func(int) int) %s { return v }\n", n, t, t, n, t, t)
 		d := k
 		d.ID = k.ID + "/as-argument-of-second-overload-candidate"
 		d.Class = k.Class + "/overload-argument"
-		d.XGo = strings.Replace(k.XGo, mx[0], fmt.Sprintf("r := pick%d(%s, 0)", n, mx[1]), 1)
+		d.XGo = strings.Replace(k.XGo, mx[0], fmt.Sprintf("r := pick%d(%s, q => q + 1)", n, mx[1]), 1)
 		d.GoDecls = goDecls
 		d.Decls = goDecls + fmt.Sprintf("\nfunc pick%d = (\n\tpickS%d\n\tpickI%d\n)\n", n, n, n)
 		out = append(out, d)
